@@ -19,4 +19,4 @@ for C in "$@"; do
   echo "== check $C quick against the change:"
   tools/with_patch.sh "$SD/patch.diff" ./check "$C" --tier quick --no-evidence 2>&1 | grep -E "^\[|^VIOLATION|^INCONCLUSIVE" | head -4 | cut -c1-220
 done
-rm -f /verif/replay/*.json
+true
